@@ -147,6 +147,7 @@ def vsplit_suite(name, pred, quick, thorough, length=50):
                   "Definition V := Eval vm_compute in xtrace_violations %s cases 0.\nPrint V." % pred)
     su["diag"] = "Eval vm_compute in match nth_error cases {k} with Some x => Some (xsys_expect scfg_current x {i}) | None => None end."
     su["show"] = "Eval vm_compute in match nth_error cases {k} with Some x => xc_trace x | None => [] end."
+    su["sig"] = "{sig} scfg_current (match nth_error cases {k} with Some x => x | None => mkXC [] [] end)"
     return su
 
 
@@ -290,7 +291,7 @@ SUITES = {
                        sys_suite("c04-sys-ent", "c04_ok", {"n": 25, "shards": 3}, {"n": 100, "shards": 16}, extra=["--impl", "ent", "--faults"]),
                        vsys_suite("c04-vsys", "vc04_ok", {"n": 25, "shards": 2}, {"n": 60, "shards": 16}),
                        # cron edits between the Peek and the Pop of one volatileTaskRepo.MarkAsDispatched (VSplit.v)
-                       vsplit_suite("c04-vsys-split", "vc04_ok", {"n": 25, "shards": 2}, {"n": 60, "shards": 16})]},
+                       vsplit_suite("c04-vsys-split", "vc04_ok", {"n": 25, "shards": 4}, {"n": 60, "shards": 16})]},
     "C05": {"suites": [sys_suite("c05-sys", "c05_ok", {"n": 25, "shards": 8}, {"n": 200, "shards": 16}),
                        sys_suite("c05-sys-faults", "c05_ok", {"n": 25, "shards": 6}, {"n": 150, "shards": 16}, extra=["--faults"]),
                        sys_suite("c05-sys-ent", "c05_ok", {"n": 25, "shards": 3}, {"n": 100, "shards": 16}, extra=["--impl", "ent"]),
